@@ -88,31 +88,70 @@ def _alias_closure(fn, name):
     return out
 
 
+def _origin_of(e, org):
+    """the one option an expression derives from: through locals of known origin and direct self.option("o") reads; else None"""
+    used = {org[x.id] for x in ast.walk(e) if isinstance(x, ast.Name) and x.id in org}
+    used |= {x.args[0].value for x in ast.walk(e) if isinstance(x, ast.Call) and ast.unparse(x.func) == "self.option" and x.args and isinstance(x.args[0], ast.Constant)}
+    return next(iter(used)) if len(used) == 1 else None
+
+
+def _option_loops(h, org, opt):
+    """the outermost `for` loops over the occurrences / pieces of option `opt` (the iterable derives from that option only)"""
+    at = _origins_at(h)
+    out = []
+
+    def rec(stmts):
+        for st in stmts:
+            if isinstance(st, (ast.FunctionDef, ast.AsyncFunctionDef, ast.ClassDef)):
+                continue
+            if isinstance(st, ast.For) and at.get(id(st)) == opt:
+                out.append(st)
+                continue
+            for fld in ("body", "orelse", "finalbody"):
+                b = getattr(st, fld, None)
+                if isinstance(b, list) and b and isinstance(b[0], ast.stmt):
+                    rec(b)
+            for hd in getattr(st, "handlers", []) or []:
+                rec(hd.body)
+    rec(h.body)
+    return out
+
+
+def _origins_at(h):
+    """{id(statement): option} for the Assign / For statements of InitCommand.handle: the option the assigned value / the iterable
+    derives from at that point of the function (a local re-used for another option later does not change it)"""
+    if not hasattr(h, "_sa_origins"):
+        _option_origins(h)
+    return h._sa_origins[1]
+
+
 def _option_origins(h):
     """{local: option name} for InitCommand.handle: x = self.option("o"), then every local assigned from an expression over locals
     of one single origin, every loop variable of a loop over such an expression, and every container filled (subscript store /
-    append / extend / setdefault / update) inside such a loop."""
-    org = {}
-
-    def origin(e):
-        used = {org[x.id] for x in ast.walk(e) if isinstance(x, ast.Name) and x.id in org}
-        return next(iter(used)) if len(used) == 1 else None
+    append / extend / setdefault / update) inside such a loop.  Statements are taken in execution order; a local bound again from
+    another option changes its origin from there on."""
+    if hasattr(h, "_sa_origins"):
+        return h._sa_origins[0]
+    org, at = {}, {}
     for n in _in_order(h):
         if isinstance(n, ast.Assign) and len(n.targets) == 1 and isinstance(n.targets[0], (ast.Name, ast.Tuple)):
-            v = n.value
             names = [n.targets[0]] if isinstance(n.targets[0], ast.Name) else [e for e in n.targets[0].elts if isinstance(e, ast.Name)]
-            if isinstance(v, ast.Call) and ast.unparse(v.func) == "self.option" and v.args and isinstance(v.args[0], ast.Constant):
+            o = _origin_of(n.value, org)
+            at[id(n)] = o
+            direct = isinstance(n.value, ast.Call) and ast.unparse(n.value.func) == "self.option"
+            if o is not None:
                 for t in names:
-                    org[t.id] = v.args[0].value
-            else:
-                o = origin(v)
-                for t in names:
-                    if t.id not in org and o is not None:
+                    # a local that already stands for an option keeps it when it is refined (validated, split, defaulted from other
+                    # settings on one branch); reading another option into it re-binds it
+                    if direct or t.id not in org:
                         org[t.id] = o
-        elif isinstance(n, ast.For) and origin(n.iter) is not None:
-            o = origin(n.iter)
+        elif isinstance(n, ast.For):
+            o = _origin_of(n.iter, org)
+            at[id(n)] = o
+            if o is None:
+                continue
             for x in ast.walk(n.target):
-                if isinstance(x, ast.Name) and x.id not in org:
+                if isinstance(x, ast.Name):
                     org[x.id] = o
             for x in ast.walk(n):
                 b = None
@@ -124,6 +163,7 @@ def _option_origins(h):
                     b = b.value
                 if isinstance(b, ast.Name) and b.id not in org and not any(isinstance(a, ast.Assign) and isinstance(a.targets[0], ast.Name) and a.targets[0].id == b.id for a in ast.walk(n)):
                     org[b.id] = o
+    h._sa_origins = (org, at)
     return org
 
 
@@ -666,11 +706,11 @@ def _seps_writer(h):
 def _seps_reader(h, opt, org):
     """separators at which the locals derived from option `opt` are split in InitCommand.handle"""
     seps = set()
-    mine = {l for l, o in org.items() if o == opt}
-    for n in sorted([n for n in ast.walk(h) if isinstance(n, (ast.Assign, ast.For))], key=lambda n: n.lineno):
-        if isinstance(n, ast.Assign) and isinstance(n.targets[0], ast.Name) and n.targets[0].id in mine:
+    at = _origins_at(h)
+    for n in _in_order(h):
+        if isinstance(n, ast.Assign) and at.get(id(n)) == opt:
             scope = [n.value]
-        elif isinstance(n, ast.For) and isinstance(n.iter, ast.Name) and n.iter.id in mine:
+        elif isinstance(n, ast.For) and at.get(id(n)) == opt:
             scope = [n]
         else:
             continue
@@ -698,10 +738,11 @@ def _r4_r6_r7(ctx, pkg):
                   f"separator mismatch for --{opt}: written with {sorted(ws)}, split at {sorted(rs)}", expected=str(sorted(exp)), found=f"writer {sorted(ws)}, reader {sorted(rs)}")
     # R6 lossy split of free text (rate / ODE modifier expressions)
     n6 = 0
-    for local, opt6 in [(l, o) for l, o in sorted(org.items()) if o in ("rate-modifier", "ode-modifier")]:
+    at = _origins_at(ih)
+    for opt6 in ("ode-modifier", "rate-modifier"):
         # statements that split pieces of this option and index the result by constants
-        for n in ast.walk(ih):
-            if isinstance(n, ast.Assign) and isinstance(n.targets[0], ast.Name) and n.targets[0].id == local:
+        for n in _in_order(ih):
+            if isinstance(n, ast.Assign) and isinstance(n.targets[0], ast.Name) and at.get(id(n)) == opt6:
                 for c in ast.walk(n.value):
                     if isinstance(c, ast.Call) and isinstance(c.func, ast.Attribute) and c.func.attr == "split" and c.args and isinstance(c.args[0], ast.Constant) and c.args[0].value == ":":
                         n6 += 1
@@ -716,7 +757,7 @@ def _r4_r6_r7(ctx, pkg):
               "`key, value = om.split(':')` raises on a surplus ':' instead of dropping text")
     ctx.floor("R6", "free-text splits", n6, 1, (INIT, ih.lineno))
     # R7 fresh lists per ODE-modifier entry
-    loops = [n for n in ast.walk(ih) if isinstance(n, ast.For) and isinstance(n.iter, ast.Name) and org.get(n.iter.id) == "ode-modifier"]
+    loops = _option_loops(ih, org, "ode-modifier")
     D = _alias_closure(ih, next((k.value.id for c in ast.walk(ih) if isinstance(c, ast.Call) for k in c.keywords if k.arg == "ode_modifier" and isinstance(k.value, ast.Name)), "ode_modifier"))
     ok = False
     found = ""
